@@ -270,6 +270,37 @@ pub(crate) mod dev {
         }
     }
 
+    /// Wrapper that injects ONE fault into any total device: the `fault_at`-th call (read, write, seek or flush,
+    /// counted from 0) fails with `FAULT`; a call budget guards termination. (Kept out of WinDev itself: an always-false
+    /// fault test inside the device made CBMC lose constant propagation of the device position, 40 s -> 940 s.)
+    pub(crate) struct Faulty<D> {
+        pub inner: D,
+        pub calls: u32,
+        pub fault_at: u32,
+        pub fired: bool,
+        pub budget: u32,
+    }
+    impl<D> Faulty<D> {
+        pub(crate) fn new(inner: D, fault_at: u32, budget: u32) -> Self { Self { inner, calls: 0, fault_at, fired: false, budget } }
+        fn tick(&mut self) -> Result<(), Tok> {
+            let c = self.calls;
+            assert!(c < self.budget, "device-call budget exceeded: the operation does not terminate");
+            self.calls += 1;
+            if c == self.fault_at { self.fired = true; Err(FAULT) } else { Ok(()) }
+        }
+    }
+    impl<D> IoBase for Faulty<D> { type Error = Tok; }
+    impl<D: Read<Error = Tok>> Read for Faulty<D> {
+        fn read(&mut self, buf: &mut [u8]) -> Result<usize, Tok> { self.tick()?; self.inner.read(buf) }
+    }
+    impl<D: Write<Error = Tok>> Write for Faulty<D> {
+        fn write(&mut self, buf: &[u8]) -> Result<usize, Tok> { self.tick()?; self.inner.write(buf) }
+        fn flush(&mut self) -> Result<(), Tok> { self.tick()?; self.inner.flush() }
+    }
+    impl<D: Seek<Error = Tok>> Seek for Faulty<D> {
+        fn seek(&mut self, pos: SeekFrom) -> Result<u64, Tok> { self.tick()?; self.inner.seek(pos) }
+    }
+
     pub(crate) const LOGN: usize = 8;
 
     /// Device without contents: it records WHERE things are written (offset, length, first byte) and when
@@ -375,24 +406,12 @@ pub(crate) mod dev {
         pub total_writes: u32,
         pub watch_addr: u64,
         pub watch_val: u8,
-        // single-fault injection: the `fault_at`-th device call fails with FAULT (u32::MAX = never)
-        pub calls: u32,
-        pub fault_at: u32,
-        pub fired: bool,
-        pub budget: u32,
     }
     impl WinDev {
-        fn tick(&mut self) -> Result<(), Tok> {
-            let c = self.calls;
-            assert!(c < self.budget, "device-call budget exceeded: the operation does not terminate");
-            self.calls += 1;
-            if c == self.fault_at { self.fired = true; Err(FAULT) } else { Ok(()) }
-        }
         pub(crate) fn new(limit: u64, fat_base: u64, fat_stride: u64, fat_copies: u8, dir_base: u64) -> Self {
             Self { pos: 0, limit, oob: false, fat_base, fat_stride, fat_copies, fat0: [0; FATW], fat1: [0; FATW], fat_writes: 0,
                    dir_base, dir: [0; DIRW], dir_writes: 0, nw: 0, w_off: [0; LOGN], w_len: [0; LOGN], w_first: [0; LOGN],
-                   overflow: false, flushes: 0, writes_at_last_flush: 0, total_writes: 0, watch_addr: u64::MAX, watch_val: 0,
-                   calls: 0, fault_at: u32::MAX, fired: false, budget: u32::MAX }
+                   overflow: false, flushes: 0, writes_at_last_flush: 0, total_writes: 0, watch_addr: u64::MAX, watch_val: 0 }
         }
         /// Some(copy index, offset) if [a, a+n) lies inside the modelled window of a FAT copy.
         fn fat_hit(&mut self, a: u64, n: u64) -> Option<(usize, usize)> {
@@ -414,7 +433,6 @@ pub(crate) mod dev {
     impl IoBase for WinDev { type Error = Tok; }
     impl Read for WinDev {
         fn read(&mut self, buf: &mut [u8]) -> Result<usize, Tok> {
-            self.tick()?;
             let n = buf.len() as u64;
             let a = self.pos;
             if a > self.limit || n > self.limit - a { self.oob = true; }
@@ -436,7 +454,6 @@ pub(crate) mod dev {
     }
     impl Write for WinDev {
         fn write(&mut self, buf: &[u8]) -> Result<usize, Tok> {
-            self.tick()?;
             let n = buf.len() as u64;
             let a = self.pos;
             self.total_writes += 1;
@@ -468,11 +485,10 @@ pub(crate) mod dev {
             self.pos = a.wrapping_add(n);
             Ok(buf.len())
         }
-        fn flush(&mut self) -> Result<(), Tok> { self.tick()?; self.flushes += 1; self.writes_at_last_flush = self.total_writes; Ok(()) }
+        fn flush(&mut self) -> Result<(), Tok> { self.flushes += 1; self.writes_at_last_flush = self.total_writes; Ok(()) }
     }
     impl Seek for WinDev {
         fn seek(&mut self, pos: SeekFrom) -> Result<u64, Tok> {
-            self.tick()?;
             self.pos = seek_total(self.pos, self.limit, pos);
             Ok(self.pos)
         }
